@@ -9,7 +9,7 @@
    the hand model of cansi only produces well-typed values ([rf_categorise_wf]). *)
 From Coq Require Import NArith List Bool Lia.
 From AV Require Import Generated.Style Model.Style Generated.Palette Spec.Lossy Model.Lossy Generated.Roff Model.Roff
-  Model.Base Model.Imp Generated.RoffFn Proofs.Roff.
+  Model.Base Model.Imp Generated.RoffFn Spec.RoffSpec Proofs.Roff.
 Import ListNotations.
 Local Open Scope N_scope.
 
@@ -272,3 +272,10 @@ Qed.
 Theorem translated_styled_stream_is_model : forall text : list N,
   g_styled_stream text = Some (map (fun c => mkRfStyled (snd c) (rf_style_of (fst c))) (rf_categorise text)).
 Proof. exact g_styled_stream_eq. Qed.
+
+(* with the property theorem of C15: the translated code computes the specification on D *)
+Theorem translated_document_shape : forall segs : list rf_seg,
+  rf_D segs ->
+  Forall (fun s => rf_bold_and_faint s = false) segs ->
+  (ls <- g_to_roff (rf_print_D segs) ;; Some (rf_render ls)) = Some (rf_spec_doc segs).
+Proof. intros segs HD Hbf. rewrite translated_to_roff_is_model. exact (rf_document_shape segs HD Hbf). Qed.
